@@ -182,6 +182,6 @@ class Message:
             m: Message structure to copy
         """
         return Message(
-            MessageHeader.from_buffer_copy(m.header),
+            type(m.header).from_buffer_copy(m.header),
             type(m.data).from_buffer_copy(m.data),
         )
